@@ -293,6 +293,9 @@ def require(ctx, tier):
             raise HarnessError(f"C13 generator never produced class {lab!r}")
 
 
+# thorough tier: libFuzzer (atheris) also drives this strategy with coverage feedback from d42
+COVERAGE_GUIDED = {"runs": 60000, "seconds": 120}
+
 MANIFEST = {
     "text": "Generated-input search over combinator operands and boundary values: each combinator's "
             "verdict must equal the combination of its parts' verdicts (library-vs-library), the "
